@@ -5,7 +5,7 @@ cd "$(dirname "$0")/.."
 N="${1:-2000}"
 bin=sim/target/release/simcheck
 fail=0
-for spec in "chan-inline C06" "chan-threads C08" "fsim-faults C10" "fsim-rolling C11" "ctx-frames C03" "ctx-spans-tree C04" "ctx-spans-completion C05" "ctx-spans-traceparent C18" "otlp-delivery C12" "otlp-routing C14" "file-e2e C07" "calling-contexts C08"; do
+for spec in "chan-inline C06" "chan-threads C08" "fsim-faults C10" "fsim-rolling C11" "ctx-frames C03" "ctx-spans-tree C04" "ctx-spans-completion C05" "ctx-spans-traceparent C18" "otlp-delivery C12" "otlp-routing C14" "file-e2e C07" "calling-contexts C08" "fsim-realfs C11"; do
   set -- $spec
   n=$N; [ "$1" = "fsim-faults" ] && n=$((N/20))
   a=$(VERIF_THREADS=1 $bin hashes $1 $2 $n | md5sum)
